@@ -476,3 +476,96 @@ def loads_calls(ctx, rule, floor=3):
                 ctx.ob(rule, 'json.loads without decoding hooks: objects become dicts in document order', True,
                        '%s:%d' % (f, node.lineno))
     ctx.floor('json.loads call sites', n, floor)
+
+
+# ---------------------------------------------------------------- text payloads reach the constructor verbatim
+
+TEXT_REWRITERS = ('sub', 'subn', 'replace', 'strip', 'lstrip', 'rstrip', 'lower', 'upper', 'translate', 'casefold', 'title',
+                  'swapcase', 'capitalize', 'expandtabs', 'encode', 'decode', 'unescape', 'unquote', 'normalize', 'format')
+TEXT_ARGS = {'Uri': [0], 'Bin': [0], 'Ref': [0, 1], 'XStr': None, 'Quantity': [1]}
+
+
+def verbatim_payload(ctx, rule, entries, fn, floor=6):
+    """JSON strings carry no escaping of their own (json.loads did it all): the text captured for a Uri, Bin, Ref,
+    str, XStr or a unit must reach the constructor unchanged.  A rewrite on the way (regex substitution, strip,
+    case, normalisation) maps different payloads to one value."""
+    scalar = fn.args.args[0].arg
+    n = 0
+
+    def defs_in(block, name):
+        return [st for st in ast.walk(block) if isinstance(st, ast.Assign) and len(st.targets) == 1
+                and isinstance(st.targets[0], ast.Name) and st.targets[0].id == name]
+
+    def is_source(e, block):
+        """payload source expressions"""
+        if isinstance(e, ast.Call) and isinstance(e.func, ast.Attribute) and e.func.attr in ('group', 'groups') \
+                and isinstance(e.func.value, ast.Name):
+            return True
+        if isinstance(e, ast.Subscript) and isinstance(e.value, ast.Name) and e.value.id == scalar and isinstance(e.slice, ast.Slice):
+            return True
+        if isinstance(e, ast.Subscript) and isinstance(e.value, ast.Name):
+            ds = defs_in(block, e.value.id)
+            if len(ds) == 1 and is_source(ds[0].value, block):
+                return True
+        return False
+
+    def verdict(e, block, depth=0):
+        """'ok' | ('rewrite', node, name) | ('unknown', node)"""
+        if depth > 6:
+            return ('unknown', e)
+        if isinstance(e, ast.Starred):
+            return verdict(e.value, block, depth + 1)
+        if is_source(e, block):
+            return 'ok'
+        if isinstance(e, ast.Name):
+            ds = defs_in(block, e.id)
+            if len(ds) == 1:
+                return verdict(ds[0].value, block, depth + 1)
+            return ('unknown', e)
+        if isinstance(e, ast.Call):
+            f = e.func
+            fname = f.attr if isinstance(f, ast.Attribute) else norm(f)
+            if fname in ('str', 'six.text_type') and len(e.args) == 1:
+                return verdict(e.args[0], block, depth + 1)
+            if isinstance(f, ast.Attribute) and f.attr == 'split' and is_source(f.value, block):
+                return 'ok'
+            has_src = any(is_source(x, block) or (isinstance(x, ast.Name) and defs_in(block, x.id)
+                                                  and any(is_source(y, block) for d in defs_in(block, x.id) for y in ast.walk(d.value)))
+                          for x in ast.walk(e) if x is not e)
+            if has_src and fname in TEXT_REWRITERS:
+                return ('rewrite', e, fname)
+            return ('unknown', e)
+        return ('unknown', e)
+
+    for ent in entries:
+        for node, kind, groups in ent.returns:
+            kinds = set((kind or '').split('|'))
+            v = node.value if isinstance(node, ast.Return) else node
+            block = ent.node
+            args = None
+            if 'str' in kinds and ent.pred == 'prefix':
+                args = [v]
+            elif isinstance(v, ast.Call) and norm(v.func) in TEXT_ARGS and norm(v.func) in kinds:
+                idx = TEXT_ARGS[norm(v.func)]
+                args = list(v.args) if idx is None else [v.args[i] for i in idx if i < len(v.args)]
+            if not args:
+                continue
+            for a in args:
+                n += 1
+                r = verdict(a, block)
+                where = '%s:%d' % (FJ, node.lineno)
+                what = norm(v.func) if isinstance(v, ast.Call) else 'str'
+                if r == 'ok':
+                    ctx.ob(rule, '%s: the captured text `%s` reaches the value unchanged' % (what, norm(a)[:50]), True, where)
+                elif r[0] == 'rewrite':
+                    ctx.violation(rule, '%s::parse_embedded_scalar' % FJ, norm(node),
+                                  'the JSON string for %s whose payload is a backslash followed by `:` (or carries blanks / '
+                                  'upper case, depending on the rewrite): the reader applies `%s` to the captured text, so it '
+                                  'comes back changed and two different payloads decode to the same value'
+                                  % (what, norm(r[1])[:70]),
+                                  'the text payload of %s is rewritten (%s) between the regex capture and the constructor; '
+                                  'the JSON writer emits payloads raw' % (what, r[2]), file=FJ, line=node.lineno, engine='E7')
+                else:
+                    ctx.error(rule, '%s:%d payload argument `%s` of %s: not a verbatim capture and not a tabled rewrite; '
+                                    'cannot decide' % (FJ, node.lineno, norm(a)[:60], what))
+    ctx.floor('text payload arguments', n, floor)
